@@ -10,7 +10,8 @@ LEVEL = "exploration"
 RULE = (
     "violation kind {wrong dtype (other fields) as bare array / inside a Chunk, wrong dtype with the SAME field names but another "
     "number format as bare array / inside a Chunk, row before / after the chunk range, a non-last row ending after the chunk, chunk labelled "
-    "with another data type, target chunks overlapping, target chunks with a gap, non-dict from a multi-output plugin} x plugin "
+    "with another data type / with the name of a sibling output of the same plugin, target chunks overlapping, target chunks with a "
+    "gap, the same two with a zero-duration chunk sitting exactly at the discontinuity, non-dict from a multi-output plugin} x plugin "
     "kind {source, ordinary, multi-output, down-chunking, loop, cut, overlap-window} (applicable pairs) x offending chunk {first, "
     "middle, last} x processor {single_thread, threaded (controlled default schedule; thorough: all schedules with <=1 delay)} x "
     "{offending type is the target, a downstream type is the target}; oracle: get_array raises, and a fresh Context reports the "
@@ -69,7 +70,11 @@ VIOLS = {
     "overlap_chunks": ("source", "downchunk"),
     "gap_chunks": ("source", "downchunk"),
     "non_dict": ("multi",),
+    "sibling_label": ("multi",),  # a chunk of one output labelled with the name of the plugin's OTHER output
+    "gap_zero": ("source",),  # [a,b) [c,c] [c,d) with c = b+1: a zero-duration chunk sits exactly at the discontinuity
+    "overlap_zero": ("source",),  # the same with c = b-1
 }
+BOUNDS_ZERO = (0, 2, 5, 5, 8)  # chunk 2 is the zero-duration chunk [5,5]
 
 
 def catalogue():
@@ -119,6 +124,9 @@ def make_post(viol, node, pos, multi_first):
             return a
         if viol == "wrong_label":
             return as_chunk(plugin, arr, start, end, dt_name, label="zz_other")
+        if viol == "sibling_label":
+            other = [p for p in plugin.provides if p != dt_name][0]
+            return as_chunk(plugin, arr, start, end, dt_name, label=other)
         raise AssertionError(viol)
 
     def post(n, idx, plugin, r, start, end):
@@ -127,6 +135,14 @@ def make_post(viol, node, pos, multi_first):
         j = idx[0] if isinstance(idx, tuple) else idx
         sub = idx[1] if isinstance(idx, tuple) else 0
         if isinstance(r, strax.Chunk):  # source / down-chunking yield chunks
+            if viol in ("gap_zero", "overlap_zero"):
+                d = 1 if viol == "gap_zero" else -1
+                if j == 2 and r.start == r.end:
+                    state["hit"] = True
+                    return strax.Chunk(start=r.start + d, end=r.end + d, run_id=r.run_id, data_kind=r.data_kind, data_type=r.data_type, dtype=r.dtype, data=r.data)
+                if j == 3 and state["hit"]:
+                    return strax.Chunk(start=r.start + d, end=r.end, run_id=r.run_id, data_kind=r.data_kind, data_type=r.data_type, dtype=r.dtype, data=r.data[r.data["time"] >= r.start + d])
+                return r
             if viol in ("overlap_chunks", "gap_chunks"):
                 k = j if not isinstance(idx, tuple) else sub
                 if k == pos and k > 0:
@@ -204,7 +220,7 @@ def run_case(res, viol, kind, pos, processor, downstream, sched_runner=None):
     nd = [n for n in spec if n["name"] == node][0]
     own = g.provides_of(nd)
     target = down if (downstream and down) else own[0]
-    sources = {n["name"]: dict(iv=IV, bounds=BOUNDS3) for n in spec if n["kind"] == "source"}
+    sources = {n["name"]: dict(iv=IV, bounds=BOUNDS_ZERO if viol in ("gap_zero", "overlap_zero") else BOUNDS3) for n in spec if n["kind"] == "source"}
     if gname == "twokind":
         sources = {"ev": dict(iv=((0, 2), (2, 5), (5, 8)), bounds=BOUNDS3), "th": dict(iv=IV, bounds=BOUNDS3)}
     d = ctxrun.fresh_dir("c12")
@@ -258,11 +274,13 @@ def cells():
             for pos in (0, 1, 2):
                 if viol in ("overlap_chunks", "gap_chunks") and pos == 0:
                     continue
+                if viol in ("gap_zero", "overlap_zero") and pos != 2:
+                    continue
                 for proc in ("single_thread", "threaded_mailbox"):
                     for downstream in (False, True):
                         if downstream and KINDS[kind][2] is None:
                             continue
-                        if downstream and viol in ("overlap_chunks", "gap_chunks"):
+                        if downstream and viol in ("overlap_chunks", "gap_chunks", "gap_zero", "overlap_zero"):
                             continue  # the statement is about the chunks of the REQUESTED target
                         C.append((viol, kind, pos, proc, downstream))
     return C
